@@ -231,3 +231,62 @@ def compare_eval(rec: Dict[str, Any], tbl: "DocTable", *, styles: Sequence[int],
 
 def loc_to_parts_k(key: Tuple[Any, ...]) -> List[Any]:
     return [untext(v) if k in ("k", "n") else v for k, v in key]
+
+
+# ---- families of exported programs, reused by C10 / C17 / C08 / C09 ------------------------------
+
+FAMILY = {
+    "path": ("MC_PathEval", CFG),
+    "filter": ("MC_Filter", """CONSTANTS Universe = "{universe}"
+SPECIFICATION Spec
+INVARIANT Export
+"""),
+    "ext": ("MC_Ext", """CONSTANTS Universe = "{universe}"
+SPECIFICATION Spec
+INVARIANT Export
+"""),
+}
+
+
+def load_family(chk: Check, family: str, universes: Sequence[str]) -> List[Dict[str, Any]]:
+    """Run TLC for the universes of one module; each returned record carries its documents
+    (rec['_docs']), filter context (rec['_ctx'], tagged or None) and expected values per document."""
+    module, cfg = FAMILY[family]
+    out: List[Dict[str, Any]] = []
+    for u in universes:
+        r = tlc(module, cfg.format(universe=u), timeout=3000)
+        chk.add_tlc(r)
+        docs = None
+        ctx = None
+        recs = []
+        for x in r.records:
+            if "docs" in x:
+                docs = x["docs"]
+                ctx = x.get("ctx")
+            else:
+                recs.append(x)
+        for x in recs:
+            x["universe"] = u
+            x["family"] = family
+            x["_docs"] = docs
+            x["_ctx"] = ctx
+        out += recs
+    return out
+
+
+def value_at(start: Any, loc: Sequence[Dict[str, Any]]) -> Any:
+    cur = start
+    for st in loc:
+        if st["k"] == "kname":
+            return untext(st["s"])
+        cur = cur[untext(st["s"])] if st["k"] == "key" else cur[st["i"]]
+    return cur
+
+
+def expected_values(rec: Dict[str, Any], d: int) -> List[Any]:
+    """The values the specification expects for document d of a family record."""
+    doc = untag(rec["_docs"][d]["doc"])
+    root = rec["q"]["root"] if "q" in rec else "$"
+    ctx = untag(rec["_ctx"]) if rec.get("_ctx") else None
+    start = [doc] if root == "^" else (ctx if root == "_" else doc)
+    return [value_at(start, l) for l in rec["res"][d]]
